@@ -641,13 +641,13 @@ example : NoncesUnique exTbl := by
   rcases h₁ with h₁ | h₁ <;> rcases h₂ with h₂ | h₂ <;> subst h₁ <;> subst h₂ <;> first | rfl | (revert hn; decide)
 
 -- alice is accepted, mallory presenting the very same bytes is refused with nothing run
-example : (exchange exTbl exInst ⟨alice, [109], some exCursorTok, some exCallTok, false, none, 130000⟩).2.err = none ∧
-    (exchange exTbl exInst ⟨mallory, [109], some exCursorTok, some exCallTok, false, none, 130000⟩).2 =
+example : (exchange exTbl exInst ⟨alice, [109], some exCursorTok, some exCallTok, false, none, 130000, []⟩).2.err = none ∧
+    (exchange exTbl exInst ⟨mallory, [109], some exCursorTok, some exCallTok, false, none, 130000, []⟩).2 =
       refuse 400 .signature := by decide
 
 -- the call token (version byte rewritten to 6) presented as the cursor: refused
 example : NoNul alice.domain ∧ ¬ alice.same mallory ∧
-    (exchange exTbl exInst ⟨alice, [109], some exCallAsCursorTok, some exCallTok, false, none, 130000⟩).2 =
+    (exchange exTbl exInst ⟨alice, [109], some exCallAsCursorTok, some exCallTok, false, none, 130000, []⟩).2 =
       refuse 400 .signature := by decide
 
 end Vgi.Props.C13
